@@ -1,4 +1,5 @@
 """C28 -- BPE merging matches the reference merge algorithm (DESIGN.md section 2, C28)."""
+import os
 import vf
 
 META = {
@@ -38,8 +39,14 @@ def main(ctx):
                         "supplied vocabularies map distinct strings to distinct ids (theorem C28_encode_piece_eq_reference_str)"]
     ctx.audit(GROUP)
     failed = ctx.prove(GROUP, "Props_C28", THEOREMS)
+    ok, out = ctx.make(GROUP, ["ModelC28.vo"])          # the case record / agree / prop_ok (no proofs inside)
+    if not ok:
+        raise vf.CheckerBroken("ModelC28.v does not compile: " + out[-1500:])
     bindir = ctx.harness(GROUP, profile="release", bins=["c28"])
     cases = ctx.gen_exec(bindir, "c28", ctx.n(60, 1500), inputs=ctx.replay_inputs())
+    lim = int(os.environ.get("VERIF_BPE_LIMIT", "0"))   # debugging aid (mutation experiments): stratified subset
+    if lim and len(cases) > lim:
+        cases = cases[::len(cases) // lim]
     ctx.correspond("bpe_merge/encode_piece", GROUP, REQ, cases, show="show", shard=ctx.n(12, 40),
                    fn_name="Bpe.ModelBpe.{bpe_new,encode_piece,bpe_merge}")
     if failed and not ctx.violations:
